@@ -942,6 +942,8 @@ class Message:
         )
         # whether the payloads come from an encrypted payload whose checksum was verified
         message.is_protected = False
+        # the octets as received (AUTH is computed over the real IKE_SA_INIT octets, not over a re-serialisation)
+        message.data = bytes(data)
 
         if not header_only:
             # parse unencrypted payloads
